@@ -54,7 +54,7 @@ def pack(res):
 def units_for(pid, reg):
     out = []
     for q, c in reg.contracts.items():
-        if pid in c.props:
+        if pid in c.props and c.verify:
             out.append(q)
     for q, l in reg.lemmas.items():
         if pid in l.props:
@@ -201,7 +201,7 @@ def replay(pid, v):
 
 def write_baseline(properties):
     reg, loader = _init()
-    quals = list(reg.contracts) + list(reg.lemmas)
+    quals = [q for q, c in reg.contracts.items() if c.verify] + list(reg.lemmas)
     results = run_units(quals, "quick")
     out = {}
     bad = 0
